@@ -190,6 +190,7 @@ def extra(ctx):
   missing = [c for c in need if c not in ctx.hist.get('class', {})]
   if missing:
     raise InfraError(f'generator missed promised classes: {missing}')
+  c08.export_stats(ctx)
 
 
 # ----------------------------------------------------------------------------- impl / model / oracle
@@ -256,6 +257,8 @@ def finding(case, what):
     return 'F-C08-sink-threads'
   if c08.assign_misaligned(case):
     return 'F-C08-assign-rebatch'
+  if c08.fnbatch_unreadable(case):
+    return 'F-C12-fnbatch-lost'
   return None
 
 
